@@ -431,6 +431,17 @@ class LoopContext:
     def _to_iterator(iterable: t.Iterable[V]) -> t.Iterator[V]:
         return iter(iterable)
 
+    def _len_of_iterable(self) -> int:
+        """``len(iterable)`` if that is the number of items of the loop.
+        Raises :exc:`TypeError` if the iterable has no size, or if it is
+        an iterator: the size of an iterator, if it has one, may be the
+        number of items that are left, and some were already taken.
+        """
+        if isinstance(self._iterable, (abc.Iterator, abc.AsyncIterator)):
+            raise TypeError("the size of an iterator is not the loop length")
+
+        return len(self._iterable)  # type: ignore
+
     @property
     def length(self) -> int:
         """Length of the iterable.
@@ -442,7 +453,7 @@ class LoopContext:
             return self._length
 
         try:
-            self._length = len(self._iterable)  # type: ignore
+            self._length = self._len_of_iterable()
         except TypeError:
             iterable = list(self._iterator)
             self._iterator = self._to_iterator(iterable)
@@ -603,7 +614,7 @@ class AsyncLoopContext(LoopContext):
             return self._length
 
         try:
-            self._length = len(self._iterable)  # type: ignore
+            self._length = self._len_of_iterable()
         except TypeError:
             iterable = [x async for x in self._iterator]
             self._iterator = self._to_iterator(iterable)
